@@ -222,7 +222,7 @@ pub fn float_spec_corner_cases(cx: &mut Ctx, rule: &str) {
                 let param = f.sig.inputs.iter().nth(1).and_then(|a| if let syn::FnArg::Typed(pt) = a { Some(sm::tsc(&pt.pat)) } else { None }).unwrap_or_else(|| "num".into());
                 let t = sm::tsc(&f.block);
                 // the no-type arm passes `true`
-                let arm_ok = regex::Regex::new(r"Some\(precision\)=>Ok\(float::format_general\(precision,\w+,Case::Lower,self\.alternate_form,true\)\)").unwrap().is_match(&t);
+                let arm_ok = regex::Regex::new(r"Some\(precision\)=>(?:Ok\()?float::format_general\(precision,\w+,Case::Lower,self\.alternate_form,true\)").unwrap().is_match(&t);
                 if arm_ok {
                     cx.ok(rule, "format_float: the no-type arm asks format_general for a fractional part");
                 } else {
